@@ -339,12 +339,15 @@ pub fn run(ctx: &Ctx) -> Report {
                         }
                         n += 1;
                         let (a, b) = (E::T(Tst::Perm(*ka, *ma)), E::T(Tst::Perm(*kb, *mb)));
-                        for op in 0..4 {
+                        for op in 0..7 {
                             let tree = match op {
                                 0 => E::and(a.clone(), b.clone()),
                                 1 => E::or(a.clone(), b.clone()),
                                 2 => E::list(a.clone(), b.clone()),
-                                _ => E::and(E::not(a.clone()), b.clone()),
+                                3 => E::and(E::not(a.clone()), b.clone()),
+                                4 => E::and(E::not(a.clone()), E::not(b.clone())),
+                                5 => E::or(E::not(a.clone()), E::not(b.clone())),
+                                _ => E::list(E::not(a.clone()), E::not(b.clone())),
                             };
                             let v = match policy::compile_tree(&tree, None, "/") {
                                 CompileOutcome::Ok(comp) => match policy::run_policy(&comp, files.clone()) {
@@ -355,7 +358,9 @@ pub fn run(ctx: &Ctx) -> Report {
                                             let want = match op {
                                                 0 | 2 => x && y,
                                                 1 => x || y,
-                                                _ => !x && y,
+                                                3 => !x && y,
+                                                4 | 6 => !x && !y,
+                                                _ => !x || !y,
                                             };
                                             if run.world.runs[i].error.is_some() || run.world.runs[i].truthy != want {
                                                 bad = Some(format!("{tree:?} on a file of mode {:o}: the two mode tests say {x} and {y}, so the expression is {want}; the emitted policy says {} ({:?})\nprogram:\n{}", f.mode, run.world.runs[i].truthy, run.world.runs[i].error, comp.text));
